@@ -103,6 +103,7 @@ func (h *H) point(p *pass, i, j int) {
 func (h *H) canonical(ps []pass) {
 	h.canon = true
 	h.countOn = h.f.Shard == 0
+	counting = h.countOn
 	for pi := range ps {
 		p := &ps[pi]
 		na, nb := p.ca, p.cb
@@ -137,6 +138,7 @@ func (h *H) canonical(ps []pass) {
 // sharded phase: rows dealt to shards; the canonical block is skipped
 func (h *H) sharded(ps []pass) {
 	h.countOn = true
+	counting = true
 	item := 0
 	for pi := range ps {
 		p := &ps[pi]
@@ -187,6 +189,7 @@ func main() {
 			fmt.Fprintln(os.Stderr, "harness: bad replay operand a")
 			os.Exit(2)
 		}
+		h.replayOp = rc.Assertion
 		if rc.Op == "RoundTrip" {
 			dom := map[string]domain{"BigDec": dBig, "Dec": dDec, "BigInt": dBigInt}[rc.Codec]
 			h.roundTrip(dom, a, true)
@@ -203,7 +206,6 @@ func main() {
 					os.Exit(2)
 				}
 			}
-			h.replayOp = rc.Op
 			h.evalCase(op, a, b, aliased)
 		}
 		finish(f, r)
@@ -235,6 +237,9 @@ func main() {
 		r.Extra["max_"+k] = v
 	}
 	r.Extra["tier_lattice"] = tier
+	r.Extra["sum_points_needing_a_rounding_decision"] = h.nontrivRounding
+	r.Extra["sum_points_beyond_the_bound"] = h.nontrivOverflow
+	r.Extra["sum_obs_quoint_truncation_differs_from_nearest_even"] = obsTruncVsEven
 	if f.Shard == 0 {
 		for _, s := range samples(tables) {
 			r.AddSample(s)
